@@ -18,7 +18,7 @@ def make_job(src, cfg):
 def run(tier, seed):
     chk = core.Check("C04", tier, seed)
     thorough = tier == "thorough"
-    n = 30000 if thorough else 4000
+    n = 30000 if thorough else 1500
     eng = diffrun.Engines(tag="c04", node=False)
     try:
         progs, used = [], {}
